@@ -91,6 +91,8 @@ func main() {
 		fmt.Println(string(b))
 	case "check":
 		os.Exit(runCheck(os.Args[2:]))
+	case "explain":
+		os.Exit(runExplain(os.Args[2:]))
 	case "probe":
 		t0 := time.Now()
 		p, err := loadProgram(LoadOpts{})
@@ -144,6 +146,9 @@ func runCheck(args []string) int {
 		for _, f := range extras[id] {
 			f(p, r)
 		}
+		if tier == "thorough" && os.Getenv("VERIF_EVIDENCE_DIR") == "" {
+			runThorough(p, r, id)
+		}
 	}()
 	return r.finish(d.explanation, append(append([]string{}, commonAssumptions...), d.assumptions...))
 }
@@ -189,4 +194,64 @@ func expandNames(p *Program, n string) []string {
 	}
 	sort.Strings(out)
 	return out
+}
+
+// runExplain re-evaluates the property of a saved report against the current tree and says,
+// for every violation of the report, whether it still occurs.
+func runExplain(args []string) int {
+	if len(args) != 1 {
+		fmt.Println("usage: btcdlint explain <report.json>")
+		return 2
+	}
+	b, err := os.ReadFile(args[0])
+	if err != nil {
+		fmt.Println(err)
+		return 2
+	}
+	var rep struct {
+		Property   string        `json:"property"`
+		Violations []*Obligation `json:"violations"`
+	}
+	if err := json.Unmarshal(b, &rep); err != nil {
+		fmt.Println(err)
+		return 2
+	}
+	tmp, _ := os.MkdirTemp("", "btcdlint-explain-")
+	defer os.RemoveAll(tmp)
+	os.Setenv("VERIF_EVIDENCE_DIR", tmp)
+	d := props[rep.Property]
+	if d == nil {
+		fmt.Println("unknown property", rep.Property)
+		return 2
+	}
+	r := newReport(rep.Property, "quick")
+	p, err := loadProgram(LoadOpts{})
+	if err != nil {
+		fmt.Println("load:", err)
+		return 1
+	}
+	d.run(p, r)
+	for _, f := range extras[rep.Property] {
+		f(p, r)
+	}
+	now := map[string]*Obligation{}
+	for _, o := range r.Obs {
+		if !o.OK {
+			now[o.Key()] = o
+		}
+	}
+	still := 0
+	for _, v := range rep.Violations {
+		if o, ok := now[v.Key()]; ok {
+			still++
+			fmt.Printf("STILL VIOLATED  %s: %s: %s\n    %s\n", o.Pos, o.Rule, o.Construct, o.Detail)
+		} else {
+			fmt.Printf("no longer occurs  %s: %s\n", v.Rule, v.Construct)
+		}
+	}
+	fmt.Printf("%d of %d reported violations reproduce on the current tree\n", still, len(rep.Violations))
+	if still > 0 {
+		return 1
+	}
+	return 0
 }
